@@ -29,6 +29,8 @@ func C02(r *core.Report) {
 	c02Blockhash(r)
 	c14NoPooledAliasAs(r, "C02.R5")
 	c02TransactionAnswer(r)
+	c02PrefetchIsBestEffort(r)
+	r.Floor("C02.R8", 2)
 	for _, k := range []string{"main.(*Epoch).GetBlock", "main.(*Epoch).GetTransaction", "main.(*Epoch).GetNodeByCid", "main.(*Epoch).ReadAtFromCar"} {
 		if f := r.Anchor("C02.R7", k); f != nil {
 			checkReentrant(r, "C02.R7", f, "requests")
@@ -902,4 +904,65 @@ func c02TransactionAnswer(r *core.Report) {
 		r.Check(okPos, rule, f.Key+"#position-from-node", posP(r, f.Pos()), "the position is read from the node", "the position is not read from the fetched node")
 	}
 	_ = p
+}
+
+// c02PrefetchIsBestEffort (C02.R8): the read-ahead that warms the object cache before a block is assembled is an
+// accelerator; whether it succeeds must not decide the answer (it legitimately fails, e.g. when the span to read exceeds
+// its size cap). In both getBlock assemblers the error of the prefetch closure never reaches a return statement.
+func c02PrefetchIsBestEffort(r *core.Report) {
+	const rule = "C02.R8"
+	p := r.Prog
+	for _, key := range []string{"main.(*MultiEpoch).handleGetBlock", "main.(*MultiEpoch).GetBlock"} {
+		f := r.Anchor(rule, key)
+		if f == nil {
+			continue
+		}
+		info := f.Pkg.TypesInfo
+		g := p.Graph(f)
+		n := 0
+		for _, node := range stmtNodes(g) {
+			as, ok := node.Ast.(*ast.AssignStmt)
+			if !ok || len(as.Rhs) != 1 || len(as.Lhs) != 1 {
+				continue
+			}
+			c, ok := core.Unparen(as.Rhs[0]).(*ast.CallExpr)
+			if !ok || len(c.Args) != 0 {
+				continue
+			}
+			id, ok := core.Unparen(c.Fun).(*ast.Ident)
+			if !ok || !strings.Contains(strings.ToLower(id.Name), "prefetch") {
+				continue
+			}
+			errObj := core.ObjOf(info, as.Lhs[0])
+			if errObj == nil || !core.IsErrorType(errObj.Type()) {
+				continue
+			}
+			n++
+			k := fmt.Sprintf("%s#%s-error-does-not-decide-the-answer", f.Key, id.Name)
+			// edges asserting err != nil for this err (fresh), and returns they dominate
+			bad := ""
+			for _, e := range g.Nodes {
+				if e.Kind != core.KEdge || e.Ast == nil {
+					continue
+				}
+				x, isNil, ok := core.NilCompare(info, e.Ast.(ast.Expr))
+				if !ok || core.ObjOf(info, x) != errObj || isNil == e.Truth {
+					continue // we want the edge on which err != nil holds
+				}
+				if !g.Dominates(node, e) {
+					continue
+				}
+				for _, rn := range g.Returns() {
+					if g.Dominates(e, rn) {
+						bad = p.Rel(rn.Ast.Pos())
+					}
+				}
+			}
+			r.Check(bad == "", rule, k, pos(r, c), "a failed read-ahead is only logged; the block is still assembled from the indexes",
+				"the request is answered with an error when the cache read-ahead fails (return at "+bad+"): an intact archived block is refused whenever the read-ahead cannot complete, e.g. when the span exceeds its size cap")
+		}
+		if n == 0 {
+			r.OK(rule, f.Key+"#no-prefetch", posP(r, f.Pos()), "no read-ahead step in this assembler")
+		}
+	}
 }
